@@ -3,7 +3,7 @@
    as they stood at the pinned commit, and the entry point [run_C07]. *)
 From Coq Require Import ZArith List Bool.
 From PTK Require Import Lib.Sx Lib.Py Model.C07_Undo Model.C07_Keys Gen.C07_Bindings.
-From PTK Require Import Model.C07_Multi Model.C07_Edit.
+From PTK Require Import Model.C07_Multi Model.C07_Edit Model.C07_Edit2.
 Import ListNotations.
 Open Scope Z_scope.
 
@@ -61,6 +61,8 @@ Definition fixed_rows : list row :=
         | (2)                              table query
         | (3 (doc...) focus (row...) (event...))  several buffers (Model/C07_Multi.v)
         | (4 text cursor (command...))     editing session, texts computed (Model/C07_Edit.v)
+        | (6 text cursor (command...))     editing session incl. kills / yanks / Vi operators
+                                           computed by C09's model (Model/C07_Edit2.v)
         | (5)                              the rows this model was built over (the harness
                                            compares them with the table of the tree under test)
    table query result = (n_rows shape_ok group_ok undo_ok (rows violating group)
@@ -75,6 +77,7 @@ Definition run_C07 (c : sx) : sx :=
          L (map A (indices_where (fun r => is_group_role r && negb ((r_cls r =? 2) && (r_act r =? 0))) c07_rows 0));
          L (map A (indices_where (fun r => (r_act r =? 1) && negb (r_cls r =? 0)) c07_rows 0));
          L (map A (indices_where (fun r => r_act r =? 2) c07_rows 0))]
+  | L [A 6; t; A cur; L cs] => run_C07_edit2 c07_rows t cur cs
   | L [A 5] => L (map (fun r => L [A (r_cls r); A (r_act r); A (r_role r)]) c07_rows)
   | L [A 3; L docs; A foc; L extra; L evs] => run_C07_multi c07_rows docs foc extra evs
   | L [A 4; t; A cur; L cs] => run_C07_edit c07_rows t cur cs
